@@ -12,6 +12,14 @@
 //!   c20_slot global-child <seed>
 //!       one round on emit::runtime::shared_slot(); events on stdout.
 //!
+//! Every initialiser builds its configuration in one of the public forms (spec/Slot.tla,
+//! SetupForms / RuntimeForms: Setup::emit_to / and_emit_to / both / map_emitter for the Setup entry
+//! points, Runtime::build / Setup::init_runtime / Runtime::default + with_* for the slots' own
+//! init); an emitter has one or two destinations, each with a planned answer to a flush request.
+//! What a Setup entry point hands back is used afterwards: the winner's `Init` (Init::get,
+//! Init::blocking_flush, Init::flush_on_drop + InitGuard::inner + the guard dropped, normally or
+//! by a panic of the harness unwinding through its scope), a loser's `None` (guarded the same way).
+//!
 //! A panic in the code under test is data: every initialiser call and every observer
 //! operation runs under catch_unwind and the panic is the logged result.  A round that does
 //! not finish within the watchdog time ends the run: exit code 3 and <dir>/hang.ndjson (the
@@ -49,10 +57,9 @@ const MIXED: u64 = 98; // one component answered with two different tags
 const UNOBS: u64 = 99; // component not exercised by the operation
 
 thread_local! {
-    /// what a tagged emitter answered to blocking_flush in the current operation (0 = not asked)
-    static FLUSH_ANSWER: std::cell::Cell<u64> = const { std::cell::Cell::new(0) };
-    /// how often a tagged emitter was asked to flush in the current operation
-    static FLUSH_COUNT: std::cell::Cell<u64> = const { std::cell::Cell::new(0) };
+    /// the flush requests tagged emitter destinations received in the current operation of this
+    /// thread, in order: (destination number within its configuration, answer, budget)
+    static FLUSHES: RefCell<Vec<(u64, bool, Duration)>> = const { RefCell::new(Vec::new()) };
 }
 thread_local! {
     /// tags that answered, per component, during the current operation of this thread
@@ -73,7 +80,13 @@ impl Tag {
     }
 }
 
-struct TEmitter(Tag);
+/// One destination of a configuration's emitter: `leaf` is its number within the
+/// configuration (1, 2), `answer` what it replies to a flush request (planned per round).
+struct TEmitter {
+    tag: Tag,
+    leaf: u64,
+    answer: bool,
+}
 struct TFilter(Tag);
 struct TCtxt(Tag);
 struct TClock(Tag);
@@ -81,18 +94,50 @@ struct TRng(Tag);
 
 impl Emitter for TEmitter {
     fn emit<E: ToEvent>(&self, _: E) {
-        self.0.hit(0);
+        self.tag.hit(0);
     }
     fn blocking_flush(&self, timeout: Duration) -> bool {
-        self.0.hit(0);
-        // the answer depends on tag and timeout, so that both values come back and a
-        // timeout altered on the way shows
-        let answer = (self.0.tag as u128 + timeout.as_nanos()) % 2 == 0;
-        FLUSH_ANSWER.with(|a| a.set(if answer { 2 } else { 1 }));
-        FLUSH_COUNT.with(|a| a.set(a.get() + 1));
-        answer
+        self.tag.hit(0);
+        FLUSHES.with(|f| f.borrow_mut().push((self.leaf, self.answer, timeout)));
+        self.answer
     }
 }
+
+/// The tags of the tagged components reachable in a component (the references a successful
+/// initialiser is handed must be to its own).
+trait Tagged {
+    fn tags(&self) -> Vec<u64>;
+}
+impl Tagged for TEmitter {
+    fn tags(&self) -> Vec<u64> {
+        vec![self.tag.tag]
+    }
+}
+impl Tagged for Empty {
+    fn tags(&self) -> Vec<u64> {
+        vec![]
+    }
+}
+impl<A: Tagged, B: Tagged> Tagged for emit::and::And<A, B> {
+    fn tags(&self) -> Vec<u64> {
+        let mut t = self.left().tags();
+        t.extend(self.right().tags());
+        t
+    }
+}
+impl<T: Tagged> Tagged for emit::runtime::AssertInternal<T> {
+    fn tags(&self) -> Vec<u64> {
+        self.0.tags()
+    }
+}
+macro_rules! tagged {
+    ($($t:ident),*) => {$(impl Tagged for $t {
+        fn tags(&self) -> Vec<u64> {
+            vec![self.0.tag]
+        }
+    })*};
+}
+tagged!(TFilter, TCtxt, TClock, TRng);
 impl Filter for TFilter {
     fn matches<E: ToEvent>(&self, evt: E) -> bool {
         self.0.hit(1);
@@ -141,8 +186,7 @@ impl Rng for TRng {
 }
 
 fn clear_seen() {
-    FLUSH_ANSWER.with(|a| a.set(0));
-    FLUSH_COUNT.with(|a| a.set(0));
+    FLUSHES.with(|f| f.borrow_mut().clear());
     SEEN.with(|s| s.borrow_mut().iter_mut().for_each(|v| v.clear()));
 }
 
@@ -160,6 +204,30 @@ fn seen(comp: usize) -> u64 {
     })
 }
 
+/// Invocations of tagged emitter destinations in the current operation.
+fn emitter_hits() -> u64 {
+    SEEN.with(|s| s.borrow()[0].len() as u64)
+}
+
+/// The flush requests of the current operation: destinations asked (in order), their answers,
+/// and the sum of the budgets they were handed compared with the caller's timeout.
+fn flushes_seen(timeout: Duration) -> (Vec<u64>, Vec<bool>, &'static str) {
+    FLUSHES.with(|f| {
+        let f = f.borrow();
+        let sum: u128 = f.iter().map(|x| x.2.as_nanos()).sum();
+        let fb = if f.is_empty() {
+            "na"
+        } else {
+            match sum.cmp(&timeout.as_nanos()) {
+                std::cmp::Ordering::Equal => "eq",
+                std::cmp::Ordering::Less => "lt",
+                std::cmp::Ordering::Greater => "gt",
+            }
+        };
+        (f.iter().map(|x| x.0).collect(), f.iter().map(|x| x.1).collect(), fb)
+    })
+}
+
 fn spin(n: u64) {
     for _ in 0..n {
         std::hint::spin_loop();
@@ -169,11 +237,16 @@ fn spin(n: u64) {
 // ------------------------------------------------------------------ one round
 #[derive(Clone)]
 struct InitPlan {
-    kind: &'static str, // "try_init_slot" | "init" | "init_slot"
+    kind: &'static str, // "try_init_slot" | "init" | "init_slot" | ...
+    /// how the configuration is built (spec/Slot.tla: SetupForms for the Setup entry points,
+    /// RuntimeForms for the slots' own init)
+    form: &'static str,
+    /// what the (up to two) destinations of the emitter answer to a flush request
+    answers: [bool; 2],
     skew: u64,
     yield_first: bool,
-    /// what a successful Setup-form initialiser does with its Init handle: (operation,
-    /// timeout); h_guard_drop consumes the handle and is last
+    /// what a Setup-form initialiser does with what it was handed: (operation, timeout); the
+    /// guard operations consume the handle and are last (a loser makes only these)
     hops: Vec<(&'static str, usize)>,
 }
 #[derive(Clone)]
@@ -242,33 +315,45 @@ impl SlotRef {
 /// Log entries are formatted after the round, so that logging costs little while racing.
 #[derive(Clone, PartialEq, Eq, PartialOrd, Ord)]
 enum Ev {
-    InitCall(usize, &'static str),
+    InitCall(usize, &'static str, &'static str),
     InitRet(usize, &'static str, bool),
     /// observer, op, flush entry point ("" for other ops), flush timeout label
     ObsCall(usize, &'static str, &'static str, &'static str),
-    /// observer, tags, en, fl (value flush returned), pan, fa (0 = no tagged emitter was
-    /// asked to flush, 1 = it answered false, 2 = it answered true)
-    ObsRet(usize, [u64; 5], bool, bool, bool, u64),
+    /// observer, tags, en, fl (value flush returned), pan, flush details
+    ObsRet(usize, [u64; 5], bool, bool, bool, Fl),
     /// initialiser, handle operation, timeout label
     HCall(usize, &'static str, &'static str),
-    /// initialiser, tags, fl, fa, nfl (times the tagged emitter was asked to flush), pan
-    HRet(usize, [u64; 5], bool, u64, u64, bool),
+    /// initialiser, tags, fl, flush details, pan
+    HRet(usize, [u64; 5], bool, Fl, bool),
     Hang(usize, String),
+}
+/// ne (invocations of tagged emitter destinations), the destinations asked to flush in order,
+/// their answers, the budget relation
+#[derive(Clone, PartialEq, Eq, PartialOrd, Ord)]
+struct Fl(u64, Vec<u64>, Vec<bool>, &'static str);
+impl Fl {
+    fn now(timeout: Duration) -> Fl {
+        let (fls, fas, fb) = flushes_seen(timeout);
+        Fl(emitter_hits(), fls, fas, fb)
+    }
+    fn json(&self) -> String {
+        format!(r#""ne":{},"fls":{:?},"fas":{:?},"fb":"{}""#, self.0, self.1, self.2, self.3)
+    }
 }
 impl Ev {
     fn json(&self) -> String {
         match self {
-            Ev::InitCall(i, k) => format!(r#"{{"e":"InitCall","i":{i},"k":"{k}"}}"#),
+            Ev::InitCall(i, k, f) => format!(r#"{{"e":"InitCall","i":{i},"k":"{k}","f":"{f}"}}"#),
             Ev::InitRet(i, r, own) => format!(r#"{{"e":"InitRet","i":{i},"r":"{r}","own":{own}}}"#),
             Ev::ObsCall(o, op, via, tmo) => format!(r#"{{"e":"ObsCall","o":{o},"op":"{op}","via":"{via}","tmo":"{tmo}"}}"#),
-            Ev::ObsRet(o, t, en, fl, pan, fa) => format!(
-                r#"{{"e":"ObsRet","o":{o},"tags":[{},{},{},{},{}],"en":{en},"fl":{fl},"pan":{pan},"fa":{fa}}}"#,
-                t[0], t[1], t[2], t[3], t[4]
+            Ev::ObsRet(o, t, en, fl, pan, f) => format!(
+                r#"{{"e":"ObsRet","o":{o},"tags":[{},{},{},{},{}],"en":{en},"fl":{fl},"pan":{pan},{}}}"#,
+                t[0], t[1], t[2], t[3], t[4], f.json()
             ),
             Ev::HCall(i, op, tmo) => format!(r#"{{"e":"HCall","i":{i},"op":"{op}","tmo":"{tmo}"}}"#),
-            Ev::HRet(i, t, fl, fa, nfl, pan) => format!(
-                r#"{{"e":"HRet","i":{i},"tags":[{},{},{},{},{}],"fl":{fl},"fa":{fa},"nfl":{nfl},"pan":{pan}}}"#,
-                t[0], t[1], t[2], t[3], t[4]
+            Ev::HRet(i, t, fl, f, pan) => format!(
+                r#"{{"e":"HRet","i":{i},"tags":[{},{},{},{},{}],"fl":{fl},{},"pan":{pan}}}"#,
+                t[0], t[1], t[2], t[3], t[4], f.json()
             ),
             Ev::Hang(t, what) => format!(r#"{{"e":"Hang","t":{t},"in":"{what}"}}"#),
         }
@@ -321,171 +406,241 @@ fn probe(rt: &emit::runtime::AmbientRuntime) -> [u64; 5] {
     tags
 }
 
-/// The post-initialisation phase of a successful Setup-form initialiser: operations through
-/// the `Init` handle it was given (Init::get, Init::blocking_flush, Init::flush_on_drop +
-/// InitGuard::inner + dropping the guard).
+/// payload of the harness's own panic that unwinds through a guard's scope
+struct Unwind;
+
+/// The phase after a Setup-form initialiser returned: operations on what it was handed - the
+/// winner its `Init` handle (Init::get, Init::blocking_flush, Init::flush_on_drop +
+/// InitGuard::inner + the guard dropped, normally or by a panic unwinding through its scope), a
+/// loser of a try_ form nothing (`None`), which it guards the same way.
 fn handle_ops<E: Emitter + ?Sized, C: Ctxt + ?Sized>(
-    init: emit::setup::Init<'_, E, C>,
+    init: Option<emit::setup::Init<'_, E, C>>,
     i: usize,
     hops: &[(&'static str, usize)],
     log: &ThreadLog,
 ) {
+    let won = init.is_some();
     let mut init = Some(init);
     for (op, tmo) in hops {
+        let guard_op = matches!(*op, "h_guard_drop" | "h_guard_unwind");
+        if !won && !guard_op {
+            continue;
+        }
         let (tmo_label, timeout) = FLUSH_TMO[*tmo % 5];
         clear_seen();
         let mut tags = [UNOBS; 5];
         let mut fl = true;
         log.call_start(Ev::HCall(i, op, if *op == "h_probe" { "" } else { tmo_label }));
         let r = std::panic::catch_unwind(std::panic::AssertUnwindSafe(|| match *op {
-            "h_probe" => tags = probe(init.as_ref().unwrap().get()),
+            "h_probe" => tags = probe(init.as_ref().unwrap().as_ref().unwrap().get()),
             "h_flush" => {
-                fl = init.as_ref().unwrap().blocking_flush(timeout);
+                fl = init.as_ref().unwrap().as_ref().unwrap().blocking_flush(timeout);
                 tags[0] = seen(0);
             }
             "h_guard_drop" => {
-                let guard = init.take().unwrap().flush_on_drop(timeout);
+                let guard = init.take().unwrap().map(|init| init.flush_on_drop(timeout));
                 // the guard gives the handle back by reference; nothing is flushed yet
-                let _ = guard.inner().get();
+                if let Some(g) = &guard {
+                    let _ = g.inner().get();
+                }
                 drop(guard);
+                tags[0] = seen(0);
+            }
+            "h_guard_unwind" => {
+                let init = init.take().unwrap();
+                let r = std::panic::catch_unwind(std::panic::AssertUnwindSafe(|| {
+                    let _guard = init.map(|init| init.flush_on_drop(timeout));
+                    std::panic::panic_any(Unwind)
+                }));
+                match r {
+                    Err(e) if e.is::<Unwind>() => {}
+                    Err(e) => std::panic::resume_unwind(e),
+                    Ok(()) => {}
+                }
                 tags[0] = seen(0);
             }
             k => tool_error(&format!("unknown handle op {k}")),
         }));
-        let fa = FLUSH_ANSWER.with(|a| a.get());
-        let nfl = FLUSH_COUNT.with(|a| a.get());
-        log.call_end(Ev::HRet(i, tags, fl, fa, nfl, r.is_err()));
+        log.call_end(Ev::HRet(i, tags, fl, Fl::now(timeout), r.is_err()));
         if init.is_none() {
             break;
         }
     }
 }
 
+/// What every initialiser thread needs to report.
+struct InitCtx<'a> {
+    i: usize,
+    hops: &'a [(&'static str, usize)],
+    log: &'a ThreadLog,
+    returned: std::cell::Cell<bool>,
+    /// destinations the emitter of the form has
+    leaves: usize,
+}
+impl InitCtx<'_> {
+    fn ret(&self, r: &'static str, own: bool) {
+        self.returned.set(true);
+        self.log.call_end(Ev::InitRet(self.i, r, own));
+    }
+    /// the references handed back are to this initialiser's own components, all of them
+    fn own(&self, emitter: &impl Tagged, rest: &[&dyn Tagged]) -> bool {
+        let me = self.i as u64;
+        emitter.tags() == vec![me; self.leaves] && rest.iter().all(|c| c.tags() == vec![me])
+    }
+    fn handed<E: Emitter + Tagged, C: Ctxt + Tagged>(&self, r: &'static str, init: Option<emit::setup::Init<'_, E, C>>) {
+        match &init {
+            Some(h) => self.ret(r, self.own(h.emitter(), &[h.ctxt()])),
+            None => self.ret("nil", true),
+        }
+        handle_ops(init, self.i, self.hops, self.log)
+    }
+}
+
+/// The Setup entry points on a slot of one's own and on the shared slot.
+fn setup_kind<'a, E>(s: emit::Setup<E, TFilter, TCtxt, TClock, TRng>, kind: &str, fresh: &dyn Fn() -> &'a AmbientSlot, cx: &InitCtx)
+where
+    E: Emitter + Tagged + Send + Sync + 'static,
+{
+    match kind {
+        "try_init_slot" => cx.handed("some", s.try_init_slot(fresh())),
+        "init_slot" => cx.handed("ok", Some(s.init_slot(fresh()))),
+        "try_init" => cx.handed("some", s.try_init()),
+        "init" => cx.handed("ok", Some(s.init())),
+        k => tool_error(&format!("unknown init kind {k}")),
+    }
+}
+
+use emit::runtime::AssertInternal as AI;
+
+/// The Setup entry points on the internal slot (components asserted not to produce diagnostics
+/// themselves).
+fn setup_kind_internal<E>(s: emit::Setup<E, AI<TFilter>, AI<TCtxt>, AI<TClock>, AI<TRng>>, kind: &str, cx: &InitCtx)
+where
+    E: emit::runtime::InternalEmitter + Tagged + Send + Sync + 'static,
+{
+    match kind {
+        "try_init_internal" => cx.handed("some", s.try_init_internal()),
+        "init_internal" => cx.handed("ok", Some(s.init_internal())),
+        k => tool_error(&format!("unknown init kind {k}")),
+    }
+}
+
+/// The slots' own init, handed a Runtime.
+fn slot_init<E>(rt: Runtime<E, TFilter, TCtxt, TClock, TRng>, slot: &AmbientSlot, cx: &InitCtx)
+where
+    E: Emitter + Tagged + Send + Sync + 'static,
+{
+    match slot.init(rt) {
+        Some(rt) => cx.ret("some", cx.own(*rt.emitter(), &[*rt.filter(), *rt.ctxt(), *rt.clock(), *rt.rng()])),
+        None => cx.ret("nil", true),
+    }
+}
+
+fn internal_slot_init<E>(rt: Runtime<E, AI<TFilter>, AI<TCtxt>, AI<TClock>, AI<TRng>>, cx: &InitCtx)
+where
+    E: emit::runtime::InternalEmitter + Tagged + Send + Sync + 'static,
+{
+    match emit::runtime::internal_slot().init(rt) {
+        Some(rt) => cx.ret("some", cx.own(*rt.emitter(), &[*rt.filter(), *rt.ctxt(), *rt.clock(), *rt.rng()])),
+        None => cx.ret("nil", true),
+    }
+}
+
+fn leaves_of(form: &str) -> usize {
+    match form {
+        "emit_to_and" | "init_runtime_and" => 2,
+        _ => 1,
+    }
+}
+
 fn run_init(plan: &RoundPlan, i: usize, p: &InitPlan, log: &ThreadLog) {
-    use emit::runtime::AssertInternal as AI;
     let tag = Tag { tag: i as u64, used: plan.used.clone() };
     spin(p.skew);
     if p.yield_first {
         std::thread::yield_now();
     }
-    let setup = || {
+    let e = |leaf: u64| TEmitter { tag: tag.clone(), leaf, answer: p.answers[leaf as usize - 1] };
+    // everything but the emitter
+    let base = || {
         emit::setup()
-            .emit_to(TEmitter(tag.clone()))
             .emit_when(TFilter(tag.clone()))
             .with_ctxt(TCtxt(tag.clone()))
             .with_clock(TClock(tag.clone()))
             .with_rng(TRng(tag.clone()))
     };
     // the internal slot takes components asserted not to produce diagnostics themselves
-    let setup_internal = || {
+    let base_internal = || {
         emit::setup()
-            .emit_to(AI(TEmitter(tag.clone())))
             .emit_when(AI(TFilter(tag.clone())))
             .with_ctxt(AI(TCtxt(tag.clone())))
             .with_clock(AI(TClock(tag.clone())))
             .with_rng(AI(TRng(tag.clone())))
     };
-    let me = i as u64;
-    let fresh = || match &plan.slot {
-        SlotRef::Fresh(s) => &**s,
-        _ => tool_error("fresh-slot entry point planned for a global slot"),
+    let fresh = || -> &AmbientSlot {
+        match &plan.slot {
+            SlotRef::Fresh(s) => s,
+            _ => tool_error("fresh-slot entry point planned for a global slot"),
+        }
     };
-    log.call_start(Ev::InitCall(i, p.kind));
+    let cx = InitCtx { i, hops: &p.hops, log, returned: std::cell::Cell::new(false), leaves: leaves_of(p.form) };
+    log.call_start(Ev::InitCall(i, p.kind, p.form));
     // harness-level signal (not instrumentation): gated observers start right now
     plan.go.store(true, SeqCst);
     // Every form runs under catch_unwind: a panic is a result like any other (the
     // specification says which form may panic, and when).
-    // (result, the references handed back are to this initialiser's own components)
-    let returned = std::cell::Cell::new(false);
-    let ret = |r: &'static str, own: bool| {
-        returned.set(true);
-        log.call_end(Ev::InitRet(i, r, own));
-    };
-    // a Setup form: on success the Init handle is used further (post-initialisation phase)
-    fn te(e: &TEmitter) -> u64 {
-        e.0.tag
-    }
-    let r = std::panic::catch_unwind(std::panic::AssertUnwindSafe(|| match p.kind {
-        "try_init_slot" => match setup().try_init_slot(fresh()) {
-            Some(init) => {
-                ret("some", te(init.emitter()) == me && init.ctxt().0.tag == me);
-                handle_ops(init, i, &p.hops, log)
-            }
-            None => ret("nil", true),
+    let r = std::panic::catch_unwind(std::panic::AssertUnwindSafe(|| match (p.kind, p.form) {
+        ("try_init_slot" | "init_slot" | "try_init" | "init", f) => match f {
+            "emit_to" => setup_kind(base().emit_to(e(1)), p.kind, &fresh, &cx),
+            "and_emit_to" => setup_kind(base().and_emit_to(e(1)), p.kind, &fresh, &cx),
+            "emit_to_and" => setup_kind(base().emit_to(e(1)).and_emit_to(e(2)), p.kind, &fresh, &cx),
+            "map_emitter" => setup_kind(base().map_emitter(|_default| e(1)), p.kind, &fresh, &cx),
+            f => tool_error(&format!("unknown Setup form {f}")),
         },
-        "init_slot" => {
-            let init = setup().init_slot(fresh());
-            ret("ok", te(init.emitter()) == me && init.ctxt().0.tag == me);
-            handle_ops(init, i, &p.hops, log)
-        }
-        "try_init" => match setup().try_init() {
-            Some(init) => {
-                ret("some", te(init.emitter()) == me && init.ctxt().0.tag == me);
-                handle_ops(init, i, &p.hops, log)
-            }
-            None => ret("nil", true),
+        ("try_init_internal" | "init_internal", f) => match f {
+            "emit_to" => setup_kind_internal(base_internal().emit_to(AI(e(1))), p.kind, &cx),
+            "and_emit_to" => setup_kind_internal(base_internal().and_emit_to(AI(e(1))), p.kind, &cx),
+            "emit_to_and" => setup_kind_internal(base_internal().emit_to(AI(e(1))).and_emit_to(AI(e(2))), p.kind, &cx),
+            "map_emitter" => setup_kind_internal(base_internal().map_emitter(|_default| AI(e(1))), p.kind, &cx),
+            f => tool_error(&format!("unknown Setup form {f}")),
         },
-        "init" => {
-            let init = setup().init();
-            ret("ok", te(init.emitter()) == me && init.ctxt().0.tag == me);
-            handle_ops(init, i, &p.hops, log)
-        }
-        "try_init_internal" => match setup_internal().try_init_internal() {
-            Some(init) => {
-                ret("some", init.emitter().0 .0.tag == me && init.ctxt().0 .0.tag == me);
-                handle_ops(init, i, &p.hops, log)
-            }
-            None => ret("nil", true),
+        ("slot_init", f) => match f {
+            "build" => slot_init(Runtime::build(e(1), TFilter(tag.clone()), TCtxt(tag.clone()), TClock(tag.clone()), TRng(tag.clone())), fresh(), &cx),
+            "init_runtime" => slot_init(base().emit_to(e(1)).init_runtime(), fresh(), &cx),
+            "init_runtime_and" => slot_init(base().emit_to(e(1)).and_emit_to(e(2)).init_runtime(), fresh(), &cx),
+            "default_with" => slot_init(
+                Runtime::default()
+                    .with_emitter(e(1))
+                    .with_filter(TFilter(tag.clone()))
+                    .with_ctxt(TCtxt(tag.clone()))
+                    .with_clock(TClock(tag.clone()))
+                    .with_rng(TRng(tag.clone())),
+                fresh(),
+                &cx,
+            ),
+            f => tool_error(&format!("unknown Runtime form {f}")),
         },
-        "init_internal" => {
-            let init = setup_internal().init_internal();
-            ret("ok", init.emitter().0 .0.tag == me && init.ctxt().0 .0.tag == me);
-            handle_ops(init, i, &p.hops, log)
-        }
-        "slot_init" => {
-            let rt = Runtime::build(
-                TEmitter(tag.clone()),
-                TFilter(tag.clone()),
-                TCtxt(tag.clone()),
-                TClock(tag.clone()),
-                TRng(tag.clone()),
-            );
-            match fresh().init(rt) {
-                Some(rt) => ret(
-                    "some",
-                    rt.emitter().0.tag == me
-                        && rt.filter().0.tag == me
-                        && rt.ctxt().0.tag == me
-                        && rt.clock().0.tag == me
-                        && rt.rng().0.tag == me,
-                ),
-                None => ret("nil", true),
-            }
-        }
-        "internal_slot_init" => {
-            let rt = Runtime::build(
-                AI(TEmitter(tag.clone())),
-                AI(TFilter(tag.clone())),
-                AI(TCtxt(tag.clone())),
-                AI(TClock(tag.clone())),
-                AI(TRng(tag.clone())),
-            );
-            match emit::runtime::internal_slot().init(rt) {
-                Some(rt) => ret(
-                    "some",
-                    rt.emitter().0 .0.tag == me
-                        && rt.filter().0 .0.tag == me
-                        && rt.ctxt().0 .0.tag == me
-                        && rt.clock().0 .0.tag == me
-                        && rt.rng().0 .0.tag == me,
-                ),
-                None => ret("nil", true),
-            }
-        }
-        k => tool_error(&format!("unknown init kind {k}")),
+        ("internal_slot_init", f) => match f {
+            "build" => internal_slot_init(
+                Runtime::build(AI(e(1)), AI(TFilter(tag.clone())), AI(TCtxt(tag.clone())), AI(TClock(tag.clone())), AI(TRng(tag.clone()))),
+                &cx,
+            ),
+            "init_runtime" => internal_slot_init(base_internal().emit_to(AI(e(1))).init_runtime(), &cx),
+            "init_runtime_and" => internal_slot_init(base_internal().emit_to(AI(e(1))).and_emit_to(AI(e(2))).init_runtime(), &cx),
+            "default_with" => internal_slot_init(
+                Runtime::default()
+                    .with_emitter(AI(e(1)))
+                    .with_filter(AI(TFilter(tag.clone())))
+                    .with_ctxt(AI(TCtxt(tag.clone())))
+                    .with_clock(AI(TClock(tag.clone())))
+                    .with_rng(AI(TRng(tag.clone()))),
+                &cx,
+            ),
+            f => tool_error(&format!("unknown Runtime form {f}")),
+        },
+        (k, _) => tool_error(&format!("unknown init kind {k}")),
     }));
-    if r.is_err() && !returned.get() {
-        ret("panic", true);
+    if r.is_err() && !cx.returned.get() {
+        cx.ret("panic", true);
     } else if r.is_err() {
         tool_error("panic after the initialiser returned, outside the caught handle operations");
     }
@@ -566,8 +721,7 @@ fn run_obs(plan: &RoundPlan, o: usize, p: &ObsPlan, log: &ThreadLog) {
             "probe" => tags = probe(slot.rt()),
             k => tool_error(&format!("unknown observer op {k}")),
         }));
-        let fa = FLUSH_ANSWER.with(|a| a.get());
-        log.call_end(Ev::ObsRet(o, tags, en, fl, r.is_err(), fa));
+        log.call_end(Ev::ObsRet(o, tags, en, fl, r.is_err(), Fl::now(timeout)));
     }
 }
 
@@ -599,14 +753,21 @@ fn plan_round(rng: &mut vh_common::Rng, slot: SlotRef, max_obs: u64, target: Tar
     for &i in order.iter().take(n_init) {
         let kinds = target.kinds();
         let kind = kinds[rng.below(kinds.len() as u64) as usize];
+        let forms: &[&'static str] = if kind.ends_with("slot_init") {
+            &["build", "init_runtime", "default_with", "init_runtime_and"]
+        } else {
+            &["emit_to", "and_emit_to", "emit_to_and", "map_emitter"]
+        };
+        let form = forms[rng.below(forms.len() as u64) as usize];
+        let answers = [rng.below(2) == 0, rng.below(2) == 0];
         let mut hops = Vec::new();
         for _ in 0..rng.below(3) {
             hops.push((["h_probe", "h_flush"][rng.below(2) as usize], rng.below(5) as usize));
         }
-        if rng.below(2) == 0 {
-            hops.push(("h_guard_drop", rng.below(5) as usize));
+        if rng.below(3) != 0 {
+            hops.push((["h_guard_drop", "h_guard_unwind"][rng.below(2) as usize], rng.below(5) as usize));
         }
-        inits[i] = Some(InitPlan { kind, skew: skew(rng), yield_first: rng.below(8) == 0, hops });
+        inits[i] = Some(InitPlan { kind, form, answers, skew: skew(rng), yield_first: rng.below(8) == 0, hops });
     }
     let mut obs = vec![None; 4];
     // half of the rounds with initialisers: observers wait until the first initialiser is
@@ -776,7 +937,7 @@ fn run_rounds(
             for t in 0..6usize {
                 let in_call = shared.logs[t].in_call.load(SeqCst) == 1;
                 let last = events.iter().rev().find(|(_, e)| match e {
-                    Ev::InitCall(i, _) | Ev::InitRet(i, _, _) | Ev::HCall(i, ..) | Ev::HRet(i, ..) => t < 3 && *i == t + 1,
+                    Ev::InitCall(i, ..) | Ev::InitRet(i, _, _) | Ev::HCall(i, ..) | Ev::HRet(i, ..) => t < 3 && *i == t + 1,
                     Ev::ObsCall(o, ..) | Ev::ObsRet(o, ..) => t >= 3 && *o == t - 2,
                     Ev::Hang(..) => false,
                 });
